@@ -1,19 +1,16 @@
 """C02: each method attains its advertised order."""
-from . import common
+from . import solvercheck, oracles, orders
+from .p_common import TB
 
 
 def check():
-    rep = common.Report("C02")
-    rep.cov["trusted_base"] = [
-        "Coq 8.16.1 kernel + vm_compute (no native_compute)",
-        "tools/extract.py: finds every `const` of src/methods/*.rs and copies its digits (its float arithmetic is re-checked in Coq by gen_ok)",
-        "model/Tableau.v: hand-written assembly of the applied Butcher arrays from the generated constants; tied to the Rust loops by the bit-exact solver replay (shared with C03/C11/C18)",
-        "Butcher's theorem (order conditions <=> local error O(h^(p+1))) is the classical bridge and is not re-proved",
-    ]
-    ok, detail = common.proof_stage(rep, "C02.v")
-    if not ok:
-        # TODO(search): model-level violating tree + implementation-level slope fit
-        rep.violation({"property": "C02", "broken": detail}, found=False)
-    rep.cov["rule"] = "obligations = theorems of coq/props/C02.v, each re-checked by coqc with its Print Assumptions output audited"
-    rep.cov["samples"] = rep.cov.get("theorems", [])[:5]
-    return rep.finish()
+    return solvercheck.run(
+        "C02", "C02.v",
+        [dict(builder=orders.builder, n_quick=1, n_thorough=1, group_oracle=orders.group_oracle_factory("end"),
+              nontrivial=lambda r: r.get("status") == "Success")],
+        [oracles.oracle_shapes],
+        TB + ["model/Tableau.v: hand-written assembly of the applied Butcher arrays from the generated constants; tied to the Rust loops by the bit-exact solver replay",
+              "Butcher's theorem (order conditions <=> local error O(h^(p+1))) is the classical bridge and is not re-proved"],
+        "theorems of coq/props/C02.v over the constants regenerated from the source; plus single steps of size h0/2^k from exact data on "
+        "closed-form, explicitly time-dependent problems, both signs of h, methods RK4/RK23/DOPRI5/DOP853/Radau: fitted slope of the "
+        "one-step error must be >= p+1-1.3; every run replayed bit-for-bit on the model")
